@@ -64,7 +64,7 @@ impl SubCheck for PathApi {
         "path_api"
     }
     fn cases(&self, tier: Tier) -> u32 {
-        tier.pick(6000, 120000)
+        tier.pick(40000, 600000)
     }
     fn strategy(&self, _tier: Tier) -> BoxedStrategy<PathCase> {
         let mut p = GraphParams::small();
